@@ -85,7 +85,13 @@ theorem isComponent_rel (env : Env) {a b : Node} (h : HintRel a b) : isComponent
   | node k as hl =>
     unfold isComponent
     rw [ht]
-    cases k <;> rfl
+    cases k <;> try rfl
+    -- jsxNsName: the qualified name is read from the two identifier children
+    rcases hl with _ | ⟨h1, _ | ⟨h2, _ | ⟨h3, hl⟩⟩⟩
+    · rfl
+    · rfl
+    · simp only [h1.identName, h2.identName]
+    · rfl
 
 /-! ### extraction -/
 
